@@ -1,6 +1,7 @@
 import RpgpModel.Proto
 import RpgpModel.Ops.C14
 import RpgpModel.Ops.C17
+import RpgpModel.Ops.C01
 import RpgpModel.Ops.C03
 import RpgpModel.Ops.C09
 /-!
@@ -12,7 +13,7 @@ Each property contributes a handler `Rpgp.Ops.Cxx.handle : String → Args → O
 open Rpgp
 
 def handlers : List (String → Args → Option String) :=
-  [Ops.C14.handle, Ops.C17.handle, Ops.C03.handle, Ops.C09.handle]
+  [Ops.C01.handle, Ops.C14.handle, Ops.C17.handle, Ops.C03.handle, Ops.C09.handle]
 
 def answer (line : String) : String :=
   match line.trimAscii.toString.splitOn " " with
